@@ -180,6 +180,7 @@ Theorem C03_generic_greedy : forall (T : Type) (K : kops T) (p : profile) (meth 
      k_ltb K (k_upd K va vb md sa sb sx) (k_max K) = true) ->
   (below_kind_of meth = BelowRename ->
      forall va vb md sa sb sx, (uses_sizes_ab meth = true -> 0 < sa /\ 0 < sb) ->
+     k_ltb K va md = false -> k_ltb K vb md = false ->
      k_ltb K (k_upd K va vb md sa sb sx) va = false \/ k_ltb K (k_upd K va vb md sa sb sx) vb = false) ->
   (tracks_candidates meth = false ->
      forall va vb md sa sb sx, k_ltb K (k_upd K va vb md sa sb sx) vb = false) ->
@@ -222,10 +223,9 @@ Theorem C03_generic_selection_greedy : forall (T : Type) (F : fops T) (p : profi
 Proof. exact generic_selection_greedy. Qed.
 Print Assumptions C03_generic_selection_greedy.
 
-(* exact rationals with the infinite sentinel: single, complete, average,
-   weighted, centroid, median (what `linkage` runs generic for, and more) *)
-Theorem C03_generic_greedy_QI : forall (p : profile) (rt : Q -> Q) (meth : method), meth <> Ward ->
-  forall s d (mq : list Q) (n : N) s' d' m' M0,
+(* exact rationals with the infinite sentinel: all seven methods *)
+Theorem C03_generic_greedy_QI : forall (p : profile) (rt : Q -> Q) (meth : method)
+  s d (mq : list Q) (n : N) s' d' m' M0,
   generic_with (kops_of (QI rt) meth) p meth s d (map Some mq) n = Ok (s', d', m') ->
   prologue p (square_all (kops_of (QI rt) meth) (map Some mq)) n = Ok M0 ->
   exists raw,
